@@ -11,6 +11,10 @@ def setup(J):
             for tw in ([""] if tier == "quick" else ["0", "1"]):
                 jobs.append({"id": "C15-defaultname-" + ps + ("-twice" + tw if tw else ""), "prop": "C15", "kind": "c15", "mode": "single", "budget": 900, "oracles": [], "events_dep": False,
                              "args": {"part": "defname", "tier": tier, "ports": ps, "twice": tw}})
+        # the join modifier of an in-port ({i:x|join:SEP}): one- and multi-character separators (scenario and oracle of C18)
+        for k, sep in ((2, " -I "), (3, ", "), (2, ",")):
+            jobs.append(J.with_delay_fallback(J.wf("C15", "gjoin", k, 1, 2, "cmd", oracles=["nohang", "clean", "c18"], tier=tier, events_dep=False, extra=sep,
+                                                   id=f"C15-join-sep-k{k}-{'-'.join(str(ord(c)) for c in sep)}")))
         q = tier == "quick"
         rule = (
             "exhaustive enumeration of a finite pattern grammar x value alphabet, every case built through the public API (Workflow.NewProc, Process.SetOut, NewTask called like Process.createTasks does) in one controlled execution and compared with a reference model written from docs/writing_workflows.md and README.md. "
@@ -25,7 +29,7 @@ def setup(J):
             + (" (3 process names, 2 names per map, 3 in-paths, 2 parameter values, 2 tag values, 2 port names, extensions none/txt/csv.gz)" if q else " (5 process names, 3 names per map, 4 extensions, out-port placeholder also occurring twice with the same extension)")
             + " + maps with 3 keys under all 6 iteration orders"
             + ": same name under every map-iteration order, different names for every pair of identities that differ in exactly one component, README form [input.]process.port[.ext] when there are no parameters / tags. "
-            "distinct_nontrivial = distinct judged cases in which at least one modifier changes the result + distinct missing-value cases + distinct default names (cases are assigned to shards by a hash of the case text, duplicates are dropped inside a shard)"
+            "+ three workflows with a joined in-port ({i:x|join:SEP}, SEP of 1-4 characters) judged by C18's oracle. distinct_nontrivial = distinct judged cases in which at least one modifier changes the result + distinct missing-value cases + distinct default names (cases are assigned to shards by a hash of the case text, duplicates are dropped inside a shard)"
         )
         return {"level": "exploration", "stages": [lambda ctx, prev: jobs],
                 "rule": rule,
@@ -35,7 +39,7 @@ def setup(J):
                     "in a command an in-path is expected as seen from the task's execution directory, a direct sub-directory of the working directory: ../value for relative values, the value itself for absolute ones, and a bare file name when the chain contains basename (pinned by TestFormatCommand; that this resolves to the file is property C13's subject)",
                     "out-paths substituted into commands are relative and free of '..' (the encoding of ../ and / inside the execution directory is property C13's subject)",
                     "values come from the valid path alphabet [0-9A-Za-z/._-]; values that themselves look like placeholders or contain '|' are outside the enumerated alphabet",
-                    "{o:...} inside SetOut patterns, {os:...}, join: and the interplay of one out-port placeholder occurring with AND without an extension annotation are not documented and not judged",
+                    "the join: modifier is judged only through three workflow scenarios with one- and multi-character separators (C18 explores it); {o:...} inside SetOut patterns, {os:...} and the interplay of one out-port placeholder occurring with AND without an extension annotation are not documented and not judged",
                     "default name: process names are already in the sanitised alphabet [a-z0-9_.-] (sanitizePathFragment folds case and other characters by design); an input's name is its file name (two inputs that differ only in their directory are not required to give different names); the in-port's own name is not a component",
                     "single-threaded construction code: one schedule per case (no concurrency in the code under test), run under the controlled runtime only so that Fail -> os.Exit is an outcome",
                 ],
